@@ -113,6 +113,13 @@ def pool(tier, seed):
     # logical negation as an operand of arithmetic and comparison parents (its text begins with a low-precedence keyword)
     for n1, b1 in BIN.items():
         out += [(f"{n1}(l=Not)", b1(p.LogicalNot(q), c)), (f"{n1}(r=Not)", b1(c, p.LogicalNot(q))), (f"{n1}(l=Not-var)", b1(p.LogicalNot(a), b))]
+    # polynomial nodes (the compiler has its own Horner printer for them): bases that are powers, sums, negated; single-term polynomials under tighter parents
+    from pymbolic.polynomial import Polynomial
+    P1, P2, P3 = Polynomial(a, ((0, 1), (1, 2), (3, -4))), Polynomial(a, ((2, 3),)), Polynomial(b, ((1, 5),))
+    out += [("Polynomial", P1), ("Polynomial(base=Power)", Polynomial(p.Power(b, 2), ((0, 1), (3, 2)))), ("Polynomial(base=Sum)", Polynomial(p.Sum((a, 1)), ((2, 1), (0, -1)))),
+            ("Polynomial(base=Neg)", Polynomial(p.Product((-1, a)), ((3, 2),))), ("Quotient(den=Polynomial1)", p.Quotient(7, p.Sum((P2, 1)))), ("Quotient(den=single-term)", p.Quotient(b, p.Sum((P2, 0)) if False else P2)),
+            ("Product(single-term)", p.Product((2, P3))), ("Power(base=single-term)", p.Power(P3, 2)), ("Sum(Polynomial)", p.Sum((1, P1, c))), ("Neg(Polynomial)", p.Product((-1, P1))),
+            ("Polynomial(coeff=negative)", Polynomial(a, ((0, -2), (2, -1))))]
     # logical operators on operands that are not truth values (Python's and / or return an operand, the evaluator a truth value)
     out += [("Or(non-boolean)", p.LogicalOr((a, b))), ("And(non-boolean)", p.LogicalAnd((a, b))), ("Or3(non-boolean)", p.LogicalOr((a, p.Sum((b, 1)), c))),
             ("Sum(Or(non-boolean))", p.Sum((p.LogicalOr((a, b)), 1))), ("If(cond=Or(non-boolean))", p.If(p.LogicalOr((a, b)), b, c))]
@@ -179,7 +186,16 @@ def environments(names):
 def free_names(e):
     from props.c06 import all_nodes
     import pymbolic.primitives as p
-    return sorted({n.name for n in all_nodes(e) if isinstance(n, p.Variable)})
+    from pymbolic.polynomial import Polynomial
+    names = set()
+    for n in all_nodes(e):
+        if isinstance(n, p.Variable):
+            names.add(n.name)
+        elif isinstance(n, Polynomial):          # a legacy node: its fields are not dataclass fields
+            names.update(free_names(n.Base))
+            for _, coeff in n.Data:
+                names.update(free_names(coeff))
+    return sorted(names)
 
 
 def run2(thunk):
